@@ -53,7 +53,7 @@ CHECKS = {
    text=("Proof: wordSum_append / wordSum_pad / wordSum_zeros — the sfnt checksum of a file is the sum (mod 2^32) of the checksums of its 4-byte-aligned zero-padded parts, so the per-table "
          "and whole-file (0xB1B0AFBA) conditions evaluated by the checker are the ones the format defines. The executable Lean checkers decide, on the real output bytes, every structural clause "
          "of the property: search header, directory strictly sorted, alignment, bounds, pairwise disjointness, every table checksum (head with zeroed adjustment), file checksum; every non-name "
-         "non-Graphite table byte-identical to the input (head apart from checkSumAdjustment); name records preserved apart from the family-derived ids when renaming; new records only with "
+         "non-Graphite table byte-identical to the input (head apart from checkSumAdjustment); name records preserved apart from the family-derived ids of English / language-neutral records when renaming (records in other languages must stay); new records only with "
          "fresh ids >= 256; exactly one of each Graphite table. Histories: 3-generation chains (g2 tables = g1 tables for Silf/Glat/Gloc/Sill, g3 = g2 byte for byte) and compile(P, compile(Q, F))."),
    note=TB + "The byte-level model `assemble` of the copy loop is not yet proved; container validity is decided per output font (translation-validation style), input fonts are sampled (generated variants + suite fonts).",
    design="4/C08"),
@@ -71,8 +71,8 @@ CHECKS = {
    technique="Lean 4 model of the driver's stage machine with theorems over all scenarios + strace trace correspondence of the real binary for every failing stage / environment fault",
    text=("Proof: over the Lean model Grc.MainSM.run (stage failure flags -> exit status, error count, ordered file-system operations): exit_zero_iff_no_error, exit_le_one, success_font_complete "
          "(exit 0 implies the destination was created by this run, written completely and not removed), failure_leaves_no_font (on failure the destination is never touched or is removed again), "
-         "no_output_before_checks, errors_reach_errfile — for every scenario. Tie: 36 constructed scenarios (each stage failing: arguments, GDL missing, encodings, missing/failing preprocessor, "
-         "preprocessor errors, syntax and semantic errors, bad font, bad -v/-n, unwritable destination, name-table overflow during output, unwritable error file; -w/-wall/-d/-D/-e) are run on the "
+         "no_output_before_checks, errors_reach_errfile — for every scenario. Tie: 38 constructed scenarios (each stage failing: arguments, GDL missing, encodings, missing/failing preprocessor, "
+         "preprocessor errors, syntax and semantic errors, bad font, bad -v/-n, unwritable destination, name-table overflow during output, unwritable error file; -w/-wall/-d/-D/-e, -w naming the numbers of the program's own errors) are run on the "
          "real binary under strace, with and without a pre-existing file at the output path; exit status, operation sequence, error-file content and the state of the output path must equal the "
          "model's prediction, successful outputs must pass the C08 container check, and diagnostic-only options must give byte-identical fonts."),
    note=TB + "The scenario->flag mapping is by construction of inputs. Kernel behaviour is observed, not modelled. An unwritable error file is itself an error (106) while the font stays: excluded by hypothesis from failure_leaves_no_font.",
@@ -139,7 +139,7 @@ CHECKS = {
    technique="Lean 4 theorem over the limit table regenerated from constants.h + size-parameterised program families compiled around each limit and decoded strictly",
    text=("Proof: Grc.Lim.guarded_no_wrap — for each of 11 size limits (passes, rule slots, features, user slot attributes, replacement classes, glyph attributes, Glat-v1 attribute ids, pseudo-glyphs, "
          "script tags, glyphs per font, attribute values), with the constant re-extracted from constants.h on every run, every quantity the guard accepts is below 2^width of the field that stores it. "
-         "Tie: thirteen program families (passes, rule slots, leading-context length, features, user attribute index, glyph attributes across the Glat v1/v2 switch, font-name length, item-constraint code "
+         "Tie: fifteen program families (glyph attribute values around +-32767/32768, passes, rule slots, leading-context length, features, user attribute index, glyph attributes across the Glat v1/v2 switch, font-name length, item-constraint code "
          "length across the one-byte skip count, action-block size across the 16-bit code offsets, replacement classes under -v2, class-map bytes across the 16-bit class offsets, glyph-attribute bytes "
          "across the 16-bit Gloc offsets with and without -c) are compiled at limit-1, limit, limit+1 and far above: each outcome "
          "must be an error and no font, or a font that passes the strict decoders, is accepted by libgraphite2 and stores the true value."),
@@ -149,7 +149,7 @@ CHECKS = {
    technique="Lean 4 order-independence theorems for the pointer-ordered containers + perturbation/concurrency exploration of the real binary",
    text=("Proof: Det.key_perm and Det.sameSet_perm_left (machine-class key and grouping are invariant under any iteration order of the pointer-ordered source-class sets), "
          "Det.attr_cell_order_independent / GA.codeWinner_perm (the stored glyph-attribute assignment does not depend on the order in which the value maps present assignments). "
-         "Exploration: each program (four generated families, rejected programs with syntax / semantic / preprocessor errors, + suite programs) is compiled 14+ times: repetitions, MALLOC_PERTURB_, large environment, locale/TZ, ASLR off, another working "
+         "Exploration: each program (seven generated families incl. features with labels in several languages, optional items, attachment, expressions; rejected programs with syntax / semantic / preprocessor errors, + suite programs) is compiled 19+ times: repetitions, MALLOC_PERTURB_, allocation through mmap (descending addresses), an LD_PRELOAD allocator handing out blocks in pseudo-random address order, large environment, locale/TZ, ASLR off, another working "
          "directory, and 6-12 concurrent compilations sharing the directory and /tmp; (font sha256, diagnostics sha256, exit status) must all be equal."),
    note=TB + "The schedule/heap-layout quantifier is explored (whatever the scheduler produced), not proved; wall-clock dependence is not perturbed. Theorems cover the identified pointer-ordered iterations only.",
    design="4/C13", category="proof"),
